@@ -26,7 +26,13 @@ def base(p):
 
 
 def coq_req(q):
+    if q["kind"] == "typeconstr":
+        # ConvertibleTo / AssignableTo resolve no qualified names: in the model their package names are bound by no table
+        return "RTypeExpr [%s]" % "; ".join("(%s, %s)" % (cs("(no qualified names in type constraints) " + a), cs(b)) for a, b in q["qnames"])
     if q["kind"] == "typepat":
+        if len(q.get("qnames") or []) > 1:
+            # a type string with several qualified names (in source order)
+            return "RTypeExpr [%s]" % "; ".join("(%s, %s)" % (cs(a), cs(b)) for a, b in q["qnames"])
         return "RTypePat %s %s" % (cs(q["pkg"]), cs(q["name"]))
     if q["kind"] == "iqual":
         return "RIface (IQual %s %s)" % (cs(q["pkg"]), cs(q["name"]))
@@ -84,6 +90,17 @@ def script_source(o):
         "Print WF."])
 
 
+def fqn_source(strings):
+    rows = ";\n".join(cs(x) for x in strings)
+    return "\n".join([
+        "From Coq Require Import List String Bool.",
+        "From RG.Types Require Import FqnSplit.",
+        "Import ListNotations. Local Open Scope string_scope.",
+        "Definition fqns : list string := [\n%s\n]." % rows,
+        "Definition FQ := Eval vm_compute in (map show_split fqns).",
+        "Print FQ."])
+
+
 def parse_gen_scope(text, name):
     """`Definition <name> : list (string * string) := [ ("a", "b"); ... ].` of a generated file -> dict (None: not found)."""
     m = re.search(r"Definition %s\b[^=]*:=\s*\[(.*?)\]\." % name, text, re.S)
@@ -94,7 +111,7 @@ def parse_gen_scope(text, name):
 
 def run(c):
     thorough = c.tier == "thorough"
-    c.go2coq_sources = ["c20.go", "c20itab.go"]
+    c.go2coq_sources = ["c20.go", "c20itab.go", "c20fqn.go", "c20parse.go"]
     c.rule = ("rules files with 1..3 groups; each group has 0..3 Import() calls out of packages whose base names collide with each "
               "other and with the stdlib (example.com/io, a/foo, b/foo, html/template, text/scanner, c20/lib), may be skipped by "
               "GroupFilter, and has 1..3 rules with a qualified name in Type.Is / Underlying().Is / SinkType.Is / Implements (pkg.T and "
@@ -130,26 +147,58 @@ def run(c):
         "initial map is the outermost scope) is outside that vocabulary and is checked by the harness instead",
     ]
     c.build_theories()
-    c.require_theories("Types/ImportsTab.v", "Types/StdTab.v", "Types/ITabGo.v")
-    # ---- P over regenerated code and tables: the base table, where it changes, the stdlib defaults themselves
-    c.install_tmpl("C20/C20.v")
-    c.coq_compile(["C20.v"])
-    gen_std = None
-    if c.go2coq("c20tables", "Gen_C20.v"):
-        try:
-            gen_std = parse_gen_scope(open(os.path.join(c.gen, "Gen_C20.v")).read(), "gen_path_by_name")
-        except OSError:
-            gen_std = None
-        if c.coq_compile(["Gen_C20.v"]):
-            c.install_tmpl("C20/Inst_C20.v", "C20/C20Std.v")
-            c.coq_compile(["Inst_C20.v", "C20Std.v"])
-    # ---- P over the data structure itself, TRANSLATED from typematch on this run: struct field, constructor and the four methods
-    # refine the model's operations, hence balance / most-recent-live-binding hold of the translated source
-    if c.go2coq("itabmethods", "Gen_ITab.v"):
-        if c.coq_compile(["Gen_ITab.v"]):
-            c.install_tmpl("C20/Inst_ITab.v", "C20/C20Tab.v")
-            c.coq_compile(["Inst_ITab.v", "C20Tab.v"])
-    hb = c.build_harness("c20")
+    c.require_theories("Types/ImportsTab.v", "Types/StdTab.v", "Types/ITabGo.v", "Types/FqnSplit.v", "Types/TypeExprParse.v")
+    # The proof obligations are independent chains (each: regenerate from /repo, compile, instantiate, props); they and the harness build
+    # run side by side.
+    from concurrent.futures import ThreadPoolExecutor
+    gen = {"std": None}
+
+    def chain_model():
+        c.install_tmpl("C20/C20.v")
+        c.coq_compile(["C20.v"])
+
+    def chain_std():
+        # ---- P over regenerated code and tables: the base table, where it changes, the stdlib defaults themselves
+        if c.go2coq("c20tables", "Gen_C20.v"):
+            try:
+                gen["std"] = parse_gen_scope(open(os.path.join(c.gen, "Gen_C20.v")).read(), "gen_path_by_name")
+            except OSError:
+                gen["std"] = None
+            if c.coq_compile(["Gen_C20.v"]):
+                c.install_tmpl("C20/Inst_C20.v", "C20/C20Std.v")
+                c.coq_compile(["Inst_C20.v", "C20Std.v"])
+
+    def chain_itab():
+        # ---- P over the data structure itself, TRANSLATED from typematch on this run: struct field, constructor and the four
+        # methods refine the model's operations, hence balance / most-recent-live-binding hold of the translated source
+        if c.go2coq("itabmethods", "Gen_ITab.v"):
+            if c.coq_compile(["Gen_ITab.v"]):
+                c.install_tmpl("C20/Inst_ITab.v", "C20/C20Tab.v")
+                c.coq_compile(["Inst_ITab.v", "C20Tab.v"])
+
+    def chain_parse():
+        # ---- P over parseExpr's nil flow, TRANSCRIBED clause by clause on this run: an unresolvable qualified name in any position
+        # of a type string makes the whole string unparsable; no parsed pattern stores a nil sub-pattern; the leaf is the model's resolver
+        if c.go2coq("c20parse", "Gen_Parse.v"):
+            if c.coq_compile(["Gen_Parse.v"]):
+                c.install_tmpl("C20/Inst_Parse.v", "C20/C20Parse.v")
+                c.coq_compile(["Inst_Parse.v", "C20Parse.v"])
+
+    def chain_fqn():
+        # ---- P over FindType's cut of a fully-qualified name, TRANSLATED on this run: the last dot of the whole string
+        if c.go2coq("c20fqn", "Gen_Fqn.v"):
+            if c.coq_compile(["Gen_Fqn.v"]):
+                c.install_tmpl("C20/Inst_Fqn.v", "C20/C20Fqn.v")
+                c.coq_compile(["Inst_Fqn.v", "C20Fqn.v"])
+
+    c.go2coq_bin()   # built once, before the chains ask for it
+    with ThreadPoolExecutor(max_workers=6) as ex:
+        fh = ex.submit(c.build_harness, "c20")
+        chains = [ex.submit(f) for f in (chain_model, chain_std, chain_itab, chain_parse, chain_fqn)]
+        for f in chains:
+            f.result()
+        hb = fh.result()
+    gen_std = gen["std"]
     if hb is None:
         return c.finish()
 
@@ -174,7 +223,27 @@ def run(c):
     def compare(o, tag):
         if o is None:
             return
-        ok, out = c.coq_eval("Cases_%s.v" % tag, eval_source(o), timeout=900)
+        # the three model evaluations (rules files, fully-qualified names, table scripts) run side by side
+        fq_strings = {}
+        for cse in (o.get("fqn_sweep") or {}).get("cases") or []:
+            if cse["expect"] != "error":
+                fq_strings[cse["fqn"]] = (cse["path"], cse["name"])
+        for sc in o["scenarios"]:
+            for g in sc["groups"]:
+                for q in g["reqs"] or []:
+                    if q["kind"] == "ifqn":
+                        fq_strings[q["pkg"] + "." + q["name"]] = (q["pkg"], q["name"])
+                for cu in g.get("custom") or []:
+                    f = cu["target"].split()
+                    fq_strings[cu["fqn"]] = (f[1], f[2])
+        fq_keys = sorted(fq_strings)
+        jobs = [("Cases_%s.v" % tag, eval_source(o))]
+        if fq_keys:
+            jobs.append(("Fqn_%s.v" % tag, fqn_source(fq_keys)))
+        if o.get("scripts"):
+            jobs.append(("Scripts_%s.v" % tag, script_source(o)))
+        evals = dict(zip([j[0] for j in jobs], c.coq_eval_many(jobs, timeout=900, workers=3)))
+        ok, out = evals["Cases_%s.v" % tag]
         model = None
         if not ok:
             c.obligation("coq-eval:Cases_%s.v" % tag, False, out[-2000:])
@@ -243,12 +312,70 @@ def run(c):
             c.coverage["std_names_swept"] = len(sw["names"])
             c.coverage["std_names_bound"] = sum(1 for sn in sw["names"] if sn["documented"])
             c.coverage["std_names_ambiguous"] = sum(1 for sn in sw["names"] if len(sn["candidates"]) > 2)
+        # ---- the parser alone: every composition of type constructors up to depth 3 around a qualified name
+        pp = o.get("pos_parse")
+        if pp is None:
+            c.obligation("pos-parse:" + tag, False, "the harness did not run the positions sweep")
+        else:
+            c.evaluations += 2 * pp["shapes"]
+            c.coverage["type_positions_parsed_directly"] = pp["shapes"]
+            c.coverage["type_positions_accepted_when_bound"] = pp["accepted"]
+            if pp.get("skipped"):
+                c.obligation("pos-parse-wrappers:" + tag, False, "a depth-1 position is rejected even with the name bound: %s" % pp["skipped"][:4])
+            for b in (pp.get("bad") or [])[:6]:
+                pat, what = b.split(" | ", 1)
+                c.fail("oracle", "typematch.Parse: " + what, input={"type_string": pat, "import_table": {"io": "io"},
+                       "call": "typematch.Parse(&typematch.Context{Itab: NewImportsTab(import_table)}, type_string)"},
+                       expected="an error (the load error of the rule)", observed="a panic" if "panics" in what else "a pattern")
+        # ---- FindType alone: fully-qualified names with dots everywhere
+        fq = o.get("fqn_sweep")
+        if fq is None:
+            c.obligation("fqn-sweep:" + tag, False, "the harness did not run the fully-qualified-name sweep")
+        else:
+            nbad = 0
+            for cse in fq["cases"]:
+                c.evaluations += 2
+                tail = cse["path"].split("/", 1)[1] if "/" in cse["path"] else cse["path"]
+                if "." in tail:
+                    c.nontrivial.add(("fqn", cse["fqn"]))
+                for which in ("got", "again"):
+                    got = cse[which]
+                    good = got.startswith("error") if cse["expect"] == "error" else got == cse["expect"]
+                    if not good and nbad < 6:
+                        nbad += 1
+                        c.fail("oracle", "engineState.FindType: a fully-qualified name does not denote the object after its last dot in the "
+                               "package before it (the current package depends on every package listed)",
+                               input={"fqn": cse["fqn"], "lookup": "second (caches)" if which == "again" else "first",
+                                      "dependencies_of_the_current_package": [p for p in fq["packages"] if cse["path"].startswith(p) or p.startswith(cse["path"])]},
+                               expected=cse["expect"], observed=got)
+                        break
+            c.coverage["fqn_lookups"] = 2 * len(fq["cases"])
+            c.coverage["fqn_packages"] = len(fq["packages"])
+        if fq_keys:
+            # K: the model's cut (split_fqn, proved equal to the translated FindType statements) on every fully-qualified name the
+            # harness used, against the (path, name) the harness joined the string from
+            keys = fq_keys
+            okq, outq = evals["Fqn_%s.v" % tag]
+            if not okq:
+                c.obligation("coq-eval:Fqn_%s.v" % tag, False, outq[-2000:])
+            else:
+                mq = re.search(r"FQ\s*=\s*\[(.*?)\]\s*:\s*list string", outq, re.S)
+                got = re.findall(r'"([^"]*)"', mq.group(1)) if mq else None
+                if got is None or len(got) != len(keys):
+                    c.obligation("coq-eval-parse:Fqn_%s.v" % tag, False, outq[-1500:])
+                else:
+                    for k, g_ in zip(keys, got):
+                        c.evaluations += 1
+                        if g_ != "%s|%s" % fq_strings[k]:
+                            c.fail("corr", "model split_fqn cuts a fully-qualified name elsewhere than the harness joined it", input={"fqn": k},
+                                   expected="%s|%s" % fq_strings[k], observed=g_)
+                    c.coverage["fqn_strings_cut_by_the_model"] = len(keys)
         # ---- the table itself: scripted Enter / Load / Leave histories, the whole visible table after every step
         scripts = o.get("scripts") or []
         if not scripts:
             c.obligation("itab-scripts:" + tag, False, "the harness ran no import-table scripts")
         else:
-            ok2, out2 = c.coq_eval("Scripts_%s.v" % tag, script_source(o), timeout=900)
+            ok2, out2 = evals["Scripts_%s.v" % tag]
             mtr = mwf = None
             if not ok2:
                 c.obligation("coq-eval:Scripts_%s.v" % tag, False, out2[-2000:])
@@ -298,7 +425,14 @@ def run(c):
         for k, sc in enumerate(o["scenarios"]):
             c.evaluations += 1
             ctx = {"seed": o["seed"], "file": "s%d.go" % sc["id"], "rules": sc["rules"]}
+            if sc.get("position"):
+                ctx["position_of_the_unresolvable_name"] = sc["position"]
+                c.nontrivial.add(("position", sc["position"], tuple(len(g["reqs"] or []) for g in sc["groups"]), tuple(bool(g["imports"]) for g in sc["groups"])))
             loaded = not sc["load_err"]
+            # what a file with engines of its own did when it was run (only its own probe functions)
+            own_note = ""
+            if sc.get("own") and loaded:
+                own_note = "; Run on the file's own probes: %s" % (sc.get("own_run") or ("reports %s" % json.dumps(sc["obs"], sort_keys=True)))
             all_imports = tuple((tuple(g["imports"] or []), g["skip"]) for g in sc["groups"])
             bound = {base(p) for g in sc["groups"] for p in (g["imports"] or [])}
             # ---- oracle: load error exactly when a name cannot be resolved
@@ -312,7 +446,12 @@ def run(c):
             if sc["o_failed"] != (not loaded):
                 c.fail("oracle", "Load %s although a qualified name %s be resolved by the documented precedence" % (
                     ("succeeds", "cannot") if loaded else ("fails", "can")), input=ctx,
-                    expected="load error" if sc["o_failed"] else "loads", observed=sc["load_err"] or "loads")
+                    expected="load error" if sc["o_failed"] else "loads", observed=sc["load_err"] or ("loads" + own_note))
+            elif loaded and sc.get("own_run"):
+                c.fail("oracle", "Run fails on a file whose qualified names all resolve (the file has an engine of its own and is run on its own "
+                       "probe functions only)", input=ctx, expected="reports for the documented targets %s" % json.dumps(sc["o_target"], sort_keys=True),
+                       observed=sc["own_run"])
+                continue
             elif loaded and sc["o_unknown_type_name"]:
                 finding = F_UNKNOWN if (mres is not None and not m_failed) else None
                 c.fail("oracle", "a type pattern names something its package does not declare and the file loads (silently-false filter)",
@@ -325,6 +464,8 @@ def run(c):
                 if bool(sc.get("load_err_ir")) != (not loaded):
                     c.fail("oracle", "Load and LoadFromIR disagree on whether the file loads", input=ctx,
                            expected=sc["load_err"] or "loads", observed=sc.get("load_err_ir") or "loads")
+                elif loaded and sc.get("own_run_ir") and not sc["o_failed"]:
+                    c.fail("oracle", "Run fails on the rules loaded through LoadFromIR", input=ctx, expected=sc["obs"], observed=sc["own_run_ir"])
                 elif loaded and (sc.get("obs_ir") or {}) != sc["obs"]:
                     c.fail("oracle", "the rules loaded through LoadFromIR resolve names differently from Load", input=ctx,
                            expected=sc["obs"], observed=sc.get("obs_ir"))
